@@ -377,6 +377,19 @@ fn cross_decode(ctx: &mut Ctx, rng: &mut Rng, handle: &DynamicColumnHandle, exp_
     let index = &col[..il];
     let values = &col[il..col.len() - 4];
     let n = exp_u64.len();
+    // the model opens the whole column file (index length, cardinality code, optional index, start
+    // offsets column, values column) and reads documents through its readers
+    if handle.column_type() != ColumnType::IpAddr && col.len() <= 40_000 && n > 0 {
+        let mut r2 = Rng(crate::report::fnv(col) ^ 0xC01F_11E5);
+        let docs = probe_indices(&mut r2, n, 300, 40);
+        let resp = ctx.model.ask(&format!("C08 colfile {} {}", hex(col), nat_list(&docs.iter().map(|&d| d as u64).collect::<Vec<_>>())));
+        let flat_len: usize = exp_u64.iter().map(|r| r.len()).sum();
+        let exp = format!("{} {n} {flat_len};{}", index[0], rows_text(&docs.iter().map(|&d| exp_u64[d].clone()).collect::<Vec<_>>()));
+        if resp != exp {
+            modelv(ctx, "C08:column-file-cross-decode", format!("{what}: the model reading the real column file gives {}, expected {}", &resp[..resp.len().min(120)], &exp[..exp.len().min(120)]), case);
+        }
+        ctx.report.count("cross-decode:column-file");
+    }
     let non_null: Vec<u32> = (0..n).filter(|&d| !exp_u64[d].is_empty()).map(|d| d as u32).collect();
     let flat: Vec<u64> = exp_u64.iter().flatten().copied().collect();
     ctx.report.count(&format!("cross-decode:index-code:{}", index[0]));
